@@ -1,6 +1,7 @@
 mod c01;
 mod c04;
 mod c09;
+mod c02;
 mod c14;
 mod cjs;
 mod cpair;
@@ -32,6 +33,7 @@ fn check_by_id(id: &str) -> Option<Arc<dyn Check>> {
         "C11" => Arc::new(cjs::C11),
         "C13" => Arc::new(cpair::C13),
         "C14" => Arc::new(c14::C14),
+        "C02" => Arc::new(c02::C02),
         "C15" => Arc::new(cpair::C15),
         "C12" => Arc::new(cjs::C12),
         _ => return None,
